@@ -32,6 +32,33 @@ class Atom:
             return ("R", self.n, tuple(a.key() for a in self.body))
         return (self.k, self.ty, self.n)
 
+    def gshow(self):
+        """rendering for the golden format file: includes constants and leaf encoders"""
+        from .guards import label
+        if self.k == "B":
+            extra = ""
+            c = self.content
+            if isinstance(c, tuple) and c and c[0] == "bytes":
+                cc = c[2]
+                if cc[0] == "of" and isinstance(cc[1], tuple) and cc[1] and cc[1][0] == "call":
+                    extra = ":" + cc[1][1]
+                elif cc[0] == "elems":
+                    extra = ":[%s]" % ",".join(label(x) for x in cc[1])
+                elif cc[0] == "repeat":
+                    extra = ":[%s;..]" % label(cc[1])
+            return "B(%s%s)" % (vs(self.n), extra)
+        if self.k == "F":
+            cv = None
+            v = self.src
+            if isinstance(v, tuple) and v and v[0] == "c":
+                cv = str(v[1])
+            elif isinstance(v, tuple) and v and v[0] == "namedc":
+                cv = v[1].split("::", 1)[-1]
+            return "F(%s%s)" % (ty_str(self.ty), ("=" + cv) if cv is not None else "")
+        if self.k == "R":
+            return "R(%s,[%s])" % (vs(self.n), " ".join(a.gshow() for a in self.body))
+        return self.show()
+
     def show(self):
         if self.k == "B":
             return "B(%s)" % vs(self.n)
@@ -77,7 +104,27 @@ def vs(v):
         return "itercount%d" % v[1]
     if k == "namedc":
         return v[1].split("::")[-1]
-    return str(v)[:60]
+    if k == "assoc":
+        return "%s(%s)" % (v[2], ty_str(v[1]) if v[1] else "?")
+    if k == "call":
+        return "%s(%s)" % (v[1], ",".join(vs(a) for a in v[2]))
+    if k == "un":
+        return "%s(%s)" % (v[1], vs(v[2]))
+    if k == "pad":
+        return "pad(%s,%s)" % (vs(v[1]), vs(v[2]))
+    if k == "alignof":
+        return "align_of(%s)" % ty_str(v[1])
+    if k == "cast":
+        return vs(v[1])
+    if k == "param":
+        return v[1]
+    if k == "elem":
+        return "elem(%s)" % vs(v[1])
+    if k == "alignto_edge":
+        return "align_to_edge%d" % v[2]
+    if k == "tpeek":
+        return "peek<%s>" % ty_str(v[2])
+    return k
 
 
 class WPath:
@@ -96,6 +143,9 @@ class WPath:
 
     def show(self):
         return " ".join(a.show() for a in self.atoms) or "ε"
+
+    def gshow(self):
+        return " ".join(a.gshow() for a in self.atoms) or "ε"
 
     def cond_show(self):
         out = []
